@@ -818,6 +818,25 @@ def _generate_product_inputs(
         }
 
 
+def _data_output_names(graph: Graph) -> set[str]:
+    """Names that some node of the graph (or of a graph nested in it) produces as a value."""
+    from hypergraph.nodes.graph_node import GraphNode
+
+    names: set[str] = set()
+    for inner in graph.iter_nodes():
+        if isinstance(inner, GraphNode):
+            names |= set(inner.outputs) - _emit_only_outputs(inner)
+        else:
+            names |= set(inner.data_outputs)
+    return names
+
+
+def _emit_only_outputs(node: GraphNode) -> set[str]:
+    """Outputs of a nested-graph node (external names) that are ordering signals only."""
+    data = set(node.map_outputs_from_original(dict.fromkeys(_data_output_names(node.graph))))
+    return set(node.outputs) - data
+
+
 def collect_as_lists(
     results: list[RunResult],
     node: GraphNode,
@@ -837,18 +856,22 @@ def collect_as_lists(
     Returns:
         Dict mapping renamed output names to lists of values
     """
-    collected: dict[str, list] = {name: [] for name in node.outputs}
+    # Ordering-only (emit) outputs of the inner graph carry no value: like a plain
+    # nested run, a mapped one does not return them (no list of None placeholders)
+    emit_only = _emit_only_outputs(node)
+    names = [name for name in node.outputs if name not in emit_only]
+    collected: dict[str, list] = {name: [] for name in names}
     for result in results:
         if result.status == RunStatus.FAILED:
             if error_handling == "raise":
                 raise result.error  # type: ignore[misc]
             # Continue mode: use None placeholders to preserve list length
-            for name in node.outputs:
+            for name in names:
                 collected[name].append(None)
             continue
         # Translate original output names to renamed names
         renamed_values = node.map_outputs_from_original(result.values)
-        for name in node.outputs:
+        for name in names:
             # An item that did not produce this output (e.g. it took another
             # branch) still occupies its position: keep every list aligned
             # with the input combinations.
